@@ -611,7 +611,8 @@ def sender_probe(text_len, send_max=512, recv_bytes=2048, trecv=3, names=None, k
     snd, _ = make_stepped(2, me=1, devices=devs)
     rcv, rcv_dec = make_stepped(2, me=0, devices=devs, timeout_receive=trecv, recv_bytes=recv_bytes)
     runs = [make_run_serial(i, "x" * 40) for i in range(max(1, text_len // 330))]
-    payload = payload_json(**{kind: runs})      # kind: which of the three lists carries the runs
+    ping = kind == "ping"        # the shortest message there is: a PING ("{}") carrying RESET
+    payload = "{}" if ping else payload_json(**{kind: runs})      # kind: which of the three lists carries the runs
     clock = FakeClock(start=1000.0, tick=0.01)
     net = FakeNet([], clock)
     net.send_max = send_max
@@ -625,7 +626,7 @@ def sender_probe(text_len, send_max=512, recv_bytes=2048, trecv=3, names=None, k
     snd._crypto.encrypt = spy
     with installed(net, clock):
         try:
-            rc = snd._tcp_send(snd._devices[names[0][0] if names else "dev0"], 0, 0, payload)
+            rc = snd._tcp_send(snd._devices[names[0][0] if names else "dev0"], 1 if ping else 0, 1 if ping else 0, payload)
         except Exception as e:   # noqa
             rc = "raised %s" % type(e).__name__
     wire = b"".join(b for (_peer, b) in net.sent)
@@ -633,12 +634,20 @@ def sender_probe(text_len, send_max=512, recv_bytes=2048, trecv=3, names=None, k
     if wire:
         c2 = FakeClock(start=2000.0, tick=0.01)
         client = ScriptedClient([wire, TIMEOUT], c2)
+        sender_urn = names[1][0] if names else "dev1"
+        if ping:
+            rcv._devices[sender_urn].last_comms = 5
+        raised = None
         with installed(None, c2):
             try:
                 rcv.handle_client(client, "10.0.0.2", 2000)
             except BaseException as e:  # noqa
                 if isinstance(e, (KeyboardInterrupt, SystemExit)):
                     raise
+                raised = e
+        if ping:     # applied = recognised as a whole message and its RESET honoured (contact times cleared)
+            return dict(reported=rc, wire_bytes=len(wire), message_bytes=len(full[0]) if full else None,
+                        delivered=raised is None and rcv._devices[sender_urn].last_comms == 0)
         delivered = len(rcv.incoming_items()) == 1
         if delivered:
             # ... and APPLIED: the run() loop hands it to the subscribers with the same runs in the same list
